@@ -1486,3 +1486,680 @@ Proof.
     + rewrite Ht. auto.
     + cbn [u_t]. apply Iq. eapply find_req_in; eauto.
 Qed.
+
+(* ================================================================== *)
+(** * Static facts about tasks *)
+
+Record task_basic (s : state) (x : task) : Prop := {
+  tb_sub : k_kind x = KSubmission -> k_final x = false /\ k_stage x = SSub /\ is_user (k_parent x) = true;
+  tb_nonsub : k_kind x <> KSubmission ->
+      k_stage x <> SSub /\ k_parent x < k_id x /\
+      exists p, find_task (k_parent x) (tasks s) = Some p /\ k_t p = k_t x;
+  tb_coord : find_coord (k_t x) (coords s) <> None;
+  tb_nonneg : 0 <= k_id x;
+  tb_assoc2 : k_assoc x = 2 -> k_st x = TEnded;
+  tb_assoc_rng : k_assoc x = 0 \/ k_assoc x = 1 \/ k_assoc x = 2;
+  tb_inline : k_stage x = SInline -> k_assoc x = 0 /\ k_st x <> TSubmitting;
+  tb_submitting : k_st x = TSubmitting -> k_assoc x = 0
+}.
+
+Definition tb_inv (s : state) : Prop :=
+  (forall k x, find_task k (tasks s) = Some x -> task_basic s x) /\
+  (forall k1 x1 k2 x2, find_task k1 (tasks s) = Some x1 -> find_task k2 (tasks s) = Some x2 ->
+     k_t x1 = k_t x2 -> k_kind x1 = KSubmission -> k_kind x2 = KSubmission -> k1 = k2).
+
+Lemma kind_stage_sub g : kind_stage_ok KSubmission g = true -> g = SSub.
+Proof. unfold kind_stage_ok. cbn. apply stage_eqb_eq. Qed.
+
+Lemma kind_stage_nonsub kind g : kind <> KSubmission -> kind_stage_ok kind g = true -> g <> SSub.
+Proof.
+  unfold kind_stage_ok, KSubmission. intros Hk. destruct (kind =? 0) eqn:E; [lia|].
+  intros H ->. destruct (_ || _) in H; discriminate.
+Qed.
+
+Lemma tb_inv_step s e s' : tb_inv s -> step s e = Some s' -> tb_inv s'.
+Proof.
+  intros [I U] H. split.
+  - intros k x' Hx'.
+    destruct (task_origin _ _ _ _ _ H Hx') as [(x & Hx & Hts)|(Hnone & t & g & a & fin & deps & kind & -> & ->)].
+    + destruct (I k x Hx) as [B1 B2 B3 B4 B5 B6 B7 B8]. statics Hts.
+      constructor; rewrite ?Sid, ?St, ?Sstg, ?Spar, ?Sfin, ?Skind.
+      * exact B1.
+      * intros Hk. destruct (B2 Hk) as (Hs & Hlt & p & Hp & Hpt). split; [exact Hs|]. split; [exact Hlt|].
+        destruct (task_persists _ _ _ _ _ H Hp) as (p' & Hp' & Hpts). statics Hpts.
+        exists p'. split; [exact Hp'|congruence].
+      * destruct (find_coord (k_t x) (coords s)) as [c|] eqn:Ec; [|contradiction].
+        destruct (coord_persists_step _ _ _ _ _ H Ec) as (c' & -> & _). discriminate.
+      * exact B4.
+      * destruct Hts; cbn; auto; try lia; try (intros Ha; specialize (B5 Ha); congruence).
+      * destruct Hts; cbn; auto.
+      * intros Hs. destruct (B7 Hs) as [Ha Hn].
+        destruct Hts; cbn; try contradiction; try lia; (split; [auto|first [exact Hn|discriminate]]).
+      * destruct Hts; cbn; auto; try discriminate; try congruence.
+    + destruct (submit_inv _ _ _ _ _ _ _ _ _ H) as [_ Hsub Hns _ Hco Hks Hnn _ _ Hids Hpost].
+      constructor; cbn [fresh_task k_kind k_final k_stage k_parent k_id k_t k_assoc k_st].
+      * intros ->. destruct (Hsub eq_refl) as (Hu & Hg & Hf & _). auto.
+      * intros Hk. destruct (Hns Hk) as (_ & p & Hp & Hpt & _). split; [eapply kind_stage_nonsub; eauto|].
+        split; [pose proof (Hids _ _ Hp); pose proof (find_task_some_id _ _ _ Hp); lia|].
+        destruct (task_persists _ _ _ _ _ H Hp) as (p' & Hp' & Hpts). statics Hpts.
+        exists p'. split; [exact Hp'|congruence].
+      * destruct (find_coord t (coords s)) as [c|] eqn:Ec; [|contradiction].
+        destruct (coord_persists_step _ _ _ _ _ H Ec) as (c' & -> & _). discriminate.
+      * exact Hnn.
+      * discriminate.
+      * auto.
+      * intros ->. cbn. split; [reflexivity|discriminate].
+      * reflexivity.
+  - intros k1 x1' k2 x2' H1 H2 Ht Hk1 Hk2.
+    destruct (task_origin _ _ _ _ _ H H1) as [(x1 & Hx1 & Hts1)|(Hn1 & t1 & g1 & a1 & f1 & d1 & kd1 & -> & ->)];
+    destruct (task_origin _ _ _ _ _ H H2) as [(x2 & Hx2 & Hts2)|(Hn2 & t2 & g2 & a2 & f2 & d2 & kd2 & E2 & ->)].
+    + statics Hts1. statics Hts2. eapply U; eauto; congruence.
+    + statics Hts1. subst e. cbn in *. subst kd2.
+      destruct (submit_inv _ _ _ _ _ _ _ _ _ H) as [_ Hsub _ _ _ _ _ _ _ _ _].
+      destruct (Hsub eq_refl) as (_ & _ & _ & Hno). exfalso. eapply Hno; [exact Hx1|congruence].
+    + statics Hts2. cbn in *. subst kd1.
+      destruct (submit_inv _ _ _ _ _ _ _ _ _ H) as [_ Hsub _ _ _ _ _ _ _ _ _].
+      destruct (Hsub eq_refl) as (_ & _ & _ & Hno). exfalso. eapply Hno; [exact Hx2|congruence].
+    + injection E2 as -> -> -> -> -> -> ->. reflexivity.
+Qed.
+
+(* ================================================================== *)
+(** * C07: a transfer cancelled before it started stays quiet *)
+
+Record quiet (s : state) (t : Z) : Prop := {
+  qu_tasks : forall k x, find_task k (tasks s) = Some x -> k_t x = t ->
+             k_kind x = KSubmission /\ (k_phase x = 0 \/ 3 <= k_phase x);
+  qu_reqs : forall q, In q (reqs s) -> r_t q <> t;
+  qu_uploads : forall u, In u (uploads s) -> u_t u <> t
+}.
+
+Lemma ns_shape_quiet s t : ns_shape s t -> quiet s t.
+Proof.
+  intros [A B C]. constructor; auto. intros k x Hx Ht. destruct (A k x Hx Ht). auto.
+Qed.
+
+Lemma quiet_step s e s' t :
+  coord_done s t = true -> quiet s t -> step s e = Some s' -> quiet s' t.
+Proof.
+  intros Hd [It Iq Iu] H. constructor.
+  - intros k x' Hx' Hkt.
+    destruct (task_origin _ _ _ _ _ H Hx') as [(x & Hx & Hts)|(_ & t0 & g & a & fin & deps & kind & -> & ->)].
+    + statics Hts. rewrite St in Hkt. destruct (It k x Hx Hkt) as [Hk Hp]. rewrite Skind. split; [exact Hk|].
+      destruct Hts; cbn [k_phase with_st with_flags with_phase with_permit with_assoc with_released] in *;
+        auto; try lia.
+      rewrite Hkt in *. congruence.
+    + cbn [k_t fresh_task] in Hkt. subst t0. cbn. split; [|left; reflexivity].
+      destruct (Z.eq_dec kind KSubmission) as [Hk|Hk]; [exact Hk|exfalso].
+      destruct (submit_inv _ _ _ _ _ _ _ _ _ H) as [_ _ Hns _ _ _ _ _ _ _ _].
+      destruct (Hns Hk) as (_ & p & Hp & Hpt & _ & Hph). destruct (It a p Hp Hpt) as [Hpk Hpp].
+      specialize (Hph Hpk). lia.
+  - intros q' Hq'.
+    destruct (req_origin _ _ _ _ H Hq') as [(q & Hq & _ & _ & Ht & _)|(a & r & op & t0 & uid & -> & ->)].
+    + rewrite Ht. auto.
+    + cbn [r_t]. intros ->.
+      destruct (s3begin_inv _ _ _ _ _ _ _ H) as [_ _ _ Htk _ _ Hup].
+      destruct (s3op_eqb op OpAbort) eqn:Eop.
+      * destruct Hup as (u & Hu & Hut & _); [apply orb_true_r|].
+        apply find_upload_in in Hu. exact (Iu u Hu Hut).
+      * assert (Hne : op <> OpAbort) by (intros ->; discriminate).
+        destruct (Htk Hne) as (x & Hx & Hxt & _ & _ & Hsub).
+        destruct (It a x Hx Hxt) as [Hk Hp]. destruct (Hsub Hk) as [Hp2 _]. lia.
+  - intros u' Hu0.
+    destruct (upload_origin _ _ _ _ H Hu0) as [(u & Hin & _ & Ht)|(r & uid & q & -> & Hq & _ & ->)].
+    + rewrite Ht. auto.
+    + cbn [u_t]. apply Iq. eapply find_req_in; eauto.
+Qed.
+
+(** in a quiet transfer no request begins and nothing but a (first) submission task is submitted *)
+Lemma quiet_no_s3begin s t a r op uid : quiet s t -> step s (ES3Begin a r op t uid) = None.
+Proof.
+  intros [It Iq Iu]. destruct (step s (ES3Begin a r op t uid)) as [s'|] eqn:H; [exfalso|reflexivity].
+  destruct (s3begin_inv _ _ _ _ _ _ _ H) as [_ _ _ Htk _ _ Hup].
+  destruct (s3op_eqb op OpAbort) eqn:Eop.
+  - destruct Hup as (u & Hu & Hut & _); [apply orb_true_r|].
+    apply find_upload_in in Hu. exact (Iu u Hu Hut).
+  - assert (Hne : op <> OpAbort) by (intros ->; discriminate).
+    destruct (Htk Hne) as (x & Hx & Hxt & _ & _ & Hsub).
+    destruct (It a x Hx Hxt) as [Hk Hp]. destruct (Hsub Hk) as [Hp2 _]. lia.
+Qed.
+
+Lemma quiet_no_submit s t a k g fin deps kind :
+  quiet s t -> kind <> KSubmission -> step s (ESubmit a k t g fin deps kind) = None.
+Proof.
+  intros [It _ _] Hk. destruct (step s (ESubmit a k t g fin deps kind)) as [s'|] eqn:H; [exfalso|reflexivity].
+  destruct (submit_inv _ _ _ _ _ _ _ _ _ H) as [_ _ Hns _ _ _ _ _ _ _ _].
+  destruct (Hns Hk) as (_ & p & Hp & Hpt & _ & Hph). destruct (It a p Hp Hpt) as [Hpk Hpp].
+  specialize (Hph Hpk). lia.
+Qed.
+
+(** the locked section of cancel() *)
+Lemma cancel_inv s a t e s' :
+  step s (ECancel a t e) = Some s' ->
+  exists c c', find_coord t (coords s) = Some c /\ find_coord t (coords s') = Some c' /\
+    tasks s' = tasks s /\ reqs s' = reqs s /\ uploads s' = uploads s /\
+    (if is_done (c_status c) then c' = c
+     else c_status c' = Cancelled /\ c_exc c' = Some e /\
+          (c_status c = NotStarted -> In a (c_owing c')) /\
+          (c_status c <> NotStarted -> c_owing c' = c_owing c)).
+Proof.
+  intros H. pose proof (step_reqs_frame _ _ _ H) as Hr. pose proof (step_uploads_frame _ _ _ H) as Hu.
+  cbn in Hr, Hu. cbn [step] in H. apply busy_false_of_if in H as [_ H].
+  destruct (_ || _) in H; [|discriminate]. sub_on_coord H.
+  exists c. exists y. split; [exact Hfc|]. split.
+  { cbn [coords set_coords]. rewrite (find_coord_upd_const t y _ c t Hfc), Z.eqb_refl; [reflexivity|].
+    destruct (is_done (c_status c)); [injection Hf as <-; reflexivity|].
+    destruct (status_eqb (c_status c) NotStarted); injection Hf as <-; reflexivity. }
+  split; [reflexivity|]. split; [exact Hr|]. split; [exact Hu|].
+  destruct (is_done (c_status c)); [now injection Hf as <-|].
+  destruct (status_eqb (c_status c) NotStarted) eqn:En; injection Hf as <-; cbn;
+    (split; [reflexivity|split; [reflexivity|split]]).
+  - intros _. now left.
+  - apply status_eqb_eq in En. intros; contradiction.
+  - intros Hn. rewrite Hn in En. discriminate.
+  - reflexivity.
+Qed.
+
+Lemma cancelled_stays_cancelled_step s e s' t c c' :
+  step s e = Some s' -> find_coord t (coords s) = Some c -> find_coord t (coords s') = Some c' ->
+  c_status c = Cancelled ->
+  c_status c' = Cancelled \/
+  (exists k x, e = ESetResult k /\ find_task k (tasks s) = Some x /\ k_t x = t /\ k_final x = true /\ k_st x = TMain) \/
+  (exists a x, e = ESetException a t x true).
+Proof.
+  intros H Hc Hc' Hst.
+  destruct (coord_persistsE _ _ _ _ _ H Hc) as (c'' & Hc'' & Hcs). rewrite Hc' in Hc''. injection Hc'' as <-.
+  destruct Hcs; cbn; auto; try (rewrite Hst in *; cbn in *; discriminate).
+  - right; left. eauto 10.
+  - destruct H0 as [H0| ->]; [rewrite Hst in H0; discriminate|]. right; right; eauto.
+Qed.
+
+Section Reach2.
+Variables w_sub w_req w_io q_sub q_req q_io up down : Z.
+Let s0 := init w_sub w_req w_io q_sub q_req q_io up down.
+
+Lemma tb_inv_reachable s : reachable s0 s -> tb_inv s.
+Proof.
+  apply invariant_reachable.
+  - split; intros; discriminate.
+  - intros; eapply tb_inv_step; eauto.
+Qed.
+
+Lemma ns_inv_reachable s : reachable s0 s -> ns_inv s.
+Proof.
+  apply (invariant_reachable2 T1_inv).
+  - apply T1_inv_reachable.
+  - intros t _. constructor; [intros; discriminate|intros q []|intros u []].
+  - intros; eapply ns_inv_step; eauto.
+Qed.
+
+(** T2 *)
+Theorem notstarted_shape s t c :
+  reachable s0 s -> find_coord t (coords s) = Some c -> c_status c = NotStarted ->
+  (forall k x, find_task k (tasks s) = Some x -> k_t x = t -> k_kind x = KSubmission /\ k_phase x = 0) /\
+  (forall q, In q (reqs s) -> r_t q <> t) /\
+  (forall u, In u (uploads s) -> u_t u <> t).
+Proof.
+  intros R Hc Hst. destruct (ns_inv_reachable s R t) as [A B C]; [|auto].
+  unfold unstarted. now rewrite Hc.
+Qed.
+
+(** cancel applies iff the transfer is not done (and then stores the cancellation) *)
+Theorem cancel_applies_iff_not_done s a t e s' :
+  step s (ECancel a t e) = Some s' ->
+  exists c c', find_coord t (coords s) = Some c /\ find_coord t (coords s') = Some c' /\
+    (is_done (c_status c) = true -> c' = c) /\
+    (is_done (c_status c) = false -> c_status c' = Cancelled /\ c_exc c' = Some e).
+Proof.
+  intros H. destruct (cancel_inv _ _ _ _ _ H) as (c & c' & Hc & Hc' & _ & _ & _ & Hif).
+  exists c, c'. split; [exact Hc|]. split; [exact Hc'|].
+  destruct (is_done (c_status c)); split; try discriminate; auto. intros _. tauto.
+Qed.
+
+(** after a cancel that found the transfer not started: forever quiet and done;
+    the status stays Cancelled unless a user overrides it with set_exception *)
+Theorem cancel_before_start_no_requests s a t e c s1 :
+  reachable s0 s -> find_coord t (coords s) = Some c -> c_status c = NotStarted ->
+  step s (ECancel a t e) = Some s1 ->
+  forall tr s2, run s1 tr = Some s2 ->
+    quiet s2 t /\ coord_done s2 t = true /\
+    (forall a' r op uid, step s2 (ES3Begin a' r op t uid) = None) /\
+    (forall a' k g fin deps kind, kind <> KSubmission -> step s2 (ESubmit a' k t g fin deps kind) = None) /\
+    (exists c2, find_coord t (coords s2) = Some c2 /\
+       (c_status c2 = Cancelled \/ exists a' x, In (ESetException a' t x true) tr)).
+Proof.
+  intros R Hc Hst H.
+  destruct (notstarted_shape s t c R Hc Hst) as (A & B & C).
+  destruct (cancel_inv _ _ _ _ _ H) as (c0 & c1 & Hc0 & Hc1 & Ht & Hr & Hu & Hif).
+  rewrite Hc in Hc0. injection Hc0 as <-. rewrite Hst in Hif. cbn in Hif. destruct Hif as (Hst1 & _).
+  assert (Q1 : quiet s1 t).
+  { constructor; rewrite ?Ht, ?Hr, ?Hu; auto. intros k x Hx Hkt. destruct (A k x Hx Hkt). auto. }
+  assert (D1 : coord_done s1 t = true) by (unfold coord_done; rewrite Hc1, Hst1; reflexivity).
+  assert (R1 : reachable s0 s1) by (eapply reachable_step; eauto).
+  assert (G : forall tr s1 c1, reachable s0 s1 -> quiet s1 t -> coord_done s1 t = true ->
+              find_coord t (coords s1) = Some c1 ->
+              forall s2, run s1 tr = Some s2 ->
+              quiet s2 t /\ coord_done s2 t = true /\
+              exists c2, find_coord t (coords s2) = Some c2 /\
+                (c_status c1 = Cancelled -> c_status c2 = Cancelled \/ exists a' x, In (ESetException a' t x true) tr)).
+  { clear Q1 D1 R1 Hc1 Hst1 Ht Hr Hu H. induction tr as [|ev tr IH]; intros s1' c1' R1 Q1 D1 Hc1 s2 Hrun; cbn [run] in Hrun.
+    - injection Hrun as <-. split; [exact Q1|]. split; [exact D1|]. exists c1'. split; [exact Hc1|]. intros Hcc. left. exact Hcc.
+    - destruct (step s1' ev) as [s1''|] eqn:Es; [|discriminate].
+      destruct (coord_persists_step _ _ _ _ _ Es Hc1) as (c1'' & Hc1' & _).
+      destruct (IH s1'' c1'' (reachable_step _ _ _ _ R1 Es) (quiet_step _ _ _ _ D1 Q1 Es)
+                  (coord_done_step _ _ _ _ Es D1) Hc1' s2 Hrun) as (Q2 & D2 & c2 & Hc2 & Hst2).
+      split; [exact Q2|]. split; [exact D2|]. exists c2. split; [exact Hc2|]. intros Hcan.
+      destruct (cancelled_stays_cancelled_step _ _ _ _ _ _ Es Hc1 Hc1' Hcan) as [Hk|[(k & y & -> & Hy & Hyt & Hyf & _)|(a' & x & ->)]].
+      + destruct (Hst2 Hk) as [|(a' & x & Hin)]; [auto|]. right. exists a', x. now right.
+      + (* set_result needs a final task of t in its main: none in a quiet transfer *)
+        exfalso. destruct (tb_inv_reachable s1' R1) as [TB _].
+        destruct Q1 as [It _ _]. destruct (It k y Hy Hyt) as [Hk _].
+        destruct (TB k y Hy) as [B1 _ _ _ _ _ _ _]. destruct (B1 Hk) as [Hf _]. congruence.
+      + right. exists a', x. now left. }
+  intros tr s2 H0.
+  destruct (G tr s1 c1 R1 Q1 D1 Hc1 s2 H0) as (Q2 & D2 & c2 & Hc2 & Hst2).
+  split; [exact Q2|]. split; [exact D2|]. split; [|split].
+  - intros. now apply quiet_no_s3begin.
+  - intros. now apply quiet_no_submit.
+  - exists c2. auto.
+Qed.
+End Reach2.
+
+(* ================================================================== *)
+(** * T3: the submit window *)
+
+(** [x] keeps its parent busy *)
+Definition holds_parent (x : task) : bool :=
+  if stage_eqb (k_stage x) SInline
+  then negb (tst_eqb (k_st x) TEnded) && negb (tst_eqb (k_st x) TQueued)
+  else negb (k_kind x =? KSubmission) && (tst_eqb (k_st x) TSubmitting || (k_assoc x =? 0)).
+
+Lemma holds_parent_busy s k x :
+  find_task k (tasks s) = Some x -> holds_parent x = true -> busy s (k_parent x) = true.
+Proof.
+  intros Hx Hh. unfold busy. apply orb_true_iff. right. apply existsb_exists.
+  exists x. split; [eapply find_task_in; eauto|]. rewrite Z.eqb_refl. exact Hh.
+Qed.
+
+Definition acting_st (p : task) : Prop := k_st p = TMain \/ k_st p = TPost.
+
+Definition window_inv (s : state) : Prop :=
+  forall k x, find_task k (tasks s) = Some x -> holds_parent x = true ->
+  exists p, find_task (k_parent x) (tasks s) = Some p /\ k_t p = k_t x /\ acting_st p.
+
+Lemma holds_parent_spec x :
+  holds_parent x = true <->
+  (k_stage x = SInline /\ k_st x <> TEnded /\ k_st x <> TQueued) \/
+  (k_stage x <> SInline /\ k_kind x <> KSubmission /\ (k_st x = TSubmitting \/ k_assoc x = 0)).
+Proof.
+  unfold holds_parent. destruct (stage_eqb (k_stage x) SInline) eqn:Es.
+  - apply stage_eqb_eq in Es. rewrite andb_true_iff, !negb_true_iff.
+    split.
+    + intros [H1 H2]. left. repeat split; auto; intros E; rewrite E in *; discriminate.
+    + intros [(_ & H1 & H2)|(H1 & _)]; [|contradiction].
+      split; destruct (k_st x); try reflexivity; congruence.
+  - assert (Hs : k_stage x <> SInline) by (intros E; rewrite E in Es; discriminate).
+    rewrite andb_true_iff, negb_true_iff, orb_true_iff. unfold KSubmission. split.
+    + intros [H1 [H2|H2]]; right; (split; [exact Hs|split; [lia|]]).
+      * left. now apply tst_eqb_true.
+      * right. lia.
+    + intros [(H1 & _)|(_ & H1 & [H2|H2])]; [contradiction| |]; (split; [lia|]).
+      * left. rewrite H2. reflexivity.
+      * right. lia.
+Qed.
+
+Lemma parent_stays s e p p' :
+  tstepE s e p p' -> acting_st p -> busy s (k_id p) = true -> acting_st p'.
+Proof.
+  unfold acting_st. intros H Ha Hb.
+  destruct H; cbn; auto; try (destruct Ha; congruence).
+Qed.
+
+(** a task starts holding its parent only when it is created (non-inline) or
+    when it is called (inline) *)
+Lemma holds_parent_begins s e x x' :
+  tstepE s e x x' -> holds_parent x' = true ->
+  holds_parent x = true \/
+  (k_stage x = SInline /\ exists k0, e = ETaskStart k0 /\ k_st x = TQueued /\
+     busy s (k_parent x) = false /\ acting_task s (k_parent x) (k_t x) = true).
+Proof.
+  intros H Hh'. rewrite !holds_parent_spec in *.
+  destruct H; cbn [k_st k_stage k_kind k_assoc with_st with_flags with_phase with_permit with_assoc with_released] in *;
+    try (left; exact Hh').
+  all: try solve [left; intuition congruence].
+  all: try solve [destruct (k_final x); left; intuition congruence].
+  all: try solve [left; intuition (try congruence; try lia)].
+  (* start *)
+  destruct Hh' as [(Hs & _ & _)|(Hs & Hk & [Hq|Ha])].
+  - right. split; [exact Hs|]. exists k. destruct (H1 Hs). auto.
+  - discriminate.
+  - left. right. auto.
+Qed.
+
+Lemma window_inv_step s e s' : window_inv s -> step s e = Some s' -> window_inv s'.
+Proof.
+  intros I H k x' Hx' Hh'.
+  destruct (task_origin _ _ _ _ _ H Hx') as [(x & Hx & Hts)|(_ & t & g & a & fin & deps & kind & -> & ->)].
+  - statics Hts. rewrite Spar, St.
+    destruct (holds_parent_begins _ _ _ _ Hts Hh') as [Hh|(Hstg & k0 & -> & Hq & Hnb & Hact)].
+    + (* the parent was already held *)
+      destruct (I k x Hx Hh) as (p & Hp & Hpt & Hpa).
+      destruct (task_persists _ _ _ _ _ H Hp) as (p' & Hp' & Hpts). statics Hpts.
+      exists p'. split; [exact Hp'|]. split; [congruence|].
+      eapply parent_stays; [exact Hpts|exact Hpa|].
+      rewrite (find_task_some_id _ _ _ Hp). eapply holds_parent_busy; eauto.
+    + (* an inline child is being called by its acting parent *)
+      destruct (acting_task_inv _ _ _ Hact) as (p & Hp & Hpt & Hpa).
+      destruct (task_persists _ _ _ _ _ H Hp) as (p' & Hp' & Hpts).
+      exists p'. split; [exact Hp'|].
+      assert (Hpp : p' = p).
+      { inversion Hpts; subst; auto. exfalso. destruct Hpa; congruence. }
+      subst p'. split; [exact Hpt|exact Hpa].
+  - (* a new task: its parent is the acting submitter *)
+    cbn [k_parent k_t fresh_task] in *.
+    destruct (Z.eq_dec kind KSubmission) as [Hk|Hk].
+    { exfalso. subst kind. destruct (submit_inv _ _ _ _ _ _ _ _ _ H) as [_ Hsub _ _ _ _ _ _ _ _ _].
+      destruct (Hsub eq_refl) as (_ & -> & _). cbn in Hh'. discriminate. }
+    destruct (submit_inv _ _ _ _ _ _ _ _ _ H) as [_ _ Hns _ _ _ _ _ _ _ _].
+    destruct (Hns Hk) as (_ & p & Hp & Hpt & Hpa & _).
+    destruct (task_persists _ _ _ _ _ H Hp) as (p' & Hp' & Hpts).
+    assert (Hpp : p' = p) by (inversion Hpts; subst; auto). subst p'.
+    exists p. auto.
+Qed.
+
+Lemma ended_is_absorbing_step s e x x' : tstepE s e x x' -> k_st x = TEnded -> k_st x' = TEnded.
+Proof. intros H Hs. destruct H; cbn; auto; try congruence. Qed.
+
+Lemma past_main_monotone_step s e x x' :
+  tstepE s e x x' -> past_main (k_st x) = true -> past_main (k_st x') = true.
+Proof.
+  intros H Hs. destruct H; cbn; auto;
+    try (match goal with Hq : k_st _ = _ |- _ => rewrite Hq in Hs; discriminate end).
+Qed.
+
+(* ================================================================== *)
+(** * Part C.  The single IO worker runs one task at a time *)
+
+Lemma io_frame s e s' :
+  step s e = Some s' ->
+  match e with
+  | ETaskStart _ | ETaskEnd _ => True
+  | _ => g_running (st_io s') = g_running (st_io s) /\ g_workers (st_io s') = g_workers (st_io s)
+  end.
+Proof.
+  intros H. destruct e; try exact I; frame_tac H;
+    try (cbn [st_io set_coords set_tasks set_sems set_shutdown set_files set_uploads set_reqs bump_after_shutdown];
+         unfold bump_after_shutdown; repeat match goal with |- context [if ?b then _ else _] => destruct b end;
+         cbn; auto; fail).
+  - (* EEnqueue *) destruct (k_stage t); cbn; auto.
+  - (* EStageShutdown *) destruct g; cbn; auto.
+  - (* EStageJoined *) destruct g; cbn; auto.
+Qed.
+
+Lemma start_io s k s' x :
+  step s (ETaskStart k) = Some s' -> find_task k (tasks s) = Some x ->
+  g_workers (st_io s') = g_workers (st_io s) /\
+  (k_stage x = SIO -> g_running (st_io s) < g_workers (st_io s) /\ g_running (st_io s') = g_running (st_io s) + 1) /\
+  (k_stage x <> SIO -> g_running (st_io s') = g_running (st_io s)) /\
+  find_task k (tasks s') = Some (with_st x TStarted).
+Proof.
+  intros H Hx. cbn [step] in H. rewrite Hx in H.
+  assert (Hpost : find_task k (upd_task k (fun y => with_st y TStarted) (tasks s)) = Some (with_st x TStarted)).
+  { rewrite find_task_upd by reflexivity. now rewrite Z.eqb_refl, Hx. }
+  destruct (stage_eqb (k_stage x) SInline) eqn:Es.
+  - apply stage_eqb_eq in Es. destruct (_ && _) in H; [|discriminate]. injection H as <-.
+    cbn. split; [reflexivity|split; [intros E; congruence|split; [intros _; reflexivity|exact Hpost]]].
+  - destruct (g_queue (get_stage s (k_stage x))) eqn:Eq; [discriminate|].
+    destruct (_ && _) eqn:Eg in H; [|discriminate]. injection H as <-. split_ands.
+    rewrite set_stage_tasks. cbn [tasks set_tasks].
+    destruct (k_stage x) eqn:Estg; cbn in *; repeat split; auto; try congruence; try lia.
+Qed.
+
+Lemma end_io s k s' x :
+  step s (ETaskEnd k) = Some s' -> find_task k (tasks s) = Some x ->
+  g_workers (st_io s') = g_workers (st_io s) /\
+  (k_stage x = SIO -> g_running (st_io s') = g_running (st_io s) - 1) /\
+  (k_stage x <> SIO -> g_running (st_io s') = g_running (st_io s)) /\
+  find_task k (tasks s') = Some (with_st x TEnded) /\
+  past_main (k_st x) = true /\ k_st x <> TEnded.
+Proof.
+  intros H Hx. cbn [step] in H. apply busy_false_of_if in H as [_ H]. rewrite Hx in H.
+  assert (Hpost : find_task k (upd_task k (fun y => with_st y TEnded) (tasks s)) = Some (with_st x TEnded)).
+  { rewrite find_task_upd by reflexivity. now rewrite Z.eqb_refl, Hx. }
+  destruct (if k_final x then _ else _) eqn:Eg in H; [|discriminate].
+  assert (Hst : past_main (k_st x) = true /\ k_st x <> TEnded).
+  { destruct (k_final x); apply tst_eqb_true in Eg; rewrite Eg; split; [reflexivity|discriminate|reflexivity|discriminate]. }
+  destruct (stage_eqb (k_stage x) SInline) eqn:Es.
+  - apply stage_eqb_eq in Es. injection H as <-. cbn.
+    split; [reflexivity|split; [intros E; congruence|split; [intros _; reflexivity|split; [exact Hpost|exact Hst]]]].
+  - injection H as <-. rewrite set_stage_tasks. cbn [tasks set_tasks].
+    destruct (k_stage x) eqn:Estg; cbn in *; repeat split; auto; try congruence; try lia; try apply Hst.
+Qed.
+
+Definition io_active (x : task) : bool :=
+  stage_eqb (k_stage x) SIO && negb (tst_eqb (k_st x) TSubmitting) && negb (tst_eqb (k_st x) TQueued)
+  && negb (tst_eqb (k_st x) TEnded).
+
+Definition io_inv (s : state) : Prop :=
+  g_workers (st_io s) = 1 ->
+  (g_running (st_io s) = 0 /\ forall k x, find_task k (tasks s) = Some x -> io_active x = false) \/
+  (g_running (st_io s) = 1 /\
+   exists k0, forall k x, find_task k (tasks s) = Some x -> io_active x = true -> k = k0).
+
+Lemma io_active_change s e x x' :
+  tstepE s e x x' ->
+  io_active x' = io_active x \/
+  (e = ETaskStart (k_id x) /\ k_st x = TQueued /\ k_st x' = TStarted) \/
+  (e = ETaskEnd (k_id x) /\ k_st x' = TEnded).
+Proof.
+  intros H. unfold io_active.
+  destruct H; cbn [k_st k_stage with_st with_flags with_phase with_permit with_assoc with_released];
+    try (left; reflexivity);
+    try (match goal with Hq : k_st _ = _ |- _ =>
+           left; rewrite Hq; cbn; destruct (stage_eqb (k_stage _) SIO); reflexivity end);
+    subst.
+  - right; left. auto.
+  - right; right. auto.
+Qed.
+
+Lemma io_active_fresh k t g a fin deps kind : io_active (fresh_task k t g a fin deps kind) = false.
+Proof. unfold io_active, fresh_task. cbn. destruct g; reflexivity. Qed.
+
+Lemma io_active_stage x : io_active x = true -> k_stage x = SIO.
+Proof. unfold io_active. intros H. split_ands. now apply stage_eqb_eq. Qed.
+
+Lemma io_active_st x : io_active x = true -> k_st x <> TSubmitting /\ k_st x <> TQueued /\ k_st x <> TEnded.
+Proof.
+  unfold io_active. intros H. split_ands.
+  repeat split; intros E; rewrite E in *; discriminate.
+Qed.
+
+Lemma io_inv_step s e s' : io_inv s -> step s e = Some s' -> io_inv s'.
+Proof.
+  intros I H Hw'.
+  assert (Hother : (forall k, e <> ETaskStart k) -> (forall k, e <> ETaskEnd k) ->
+    (g_running (st_io s') = 0 /\ forall k x, find_task k (tasks s') = Some x -> io_active x = false) \/
+    (g_running (st_io s') = 1 /\
+     exists k0, forall k x, find_task k (tasks s') = Some x -> io_active x = true -> k = k0)).
+  { intros N1 N2.
+    assert (Hfr : g_running (st_io s') = g_running (st_io s) /\ g_workers (st_io s') = g_workers (st_io s)).
+    { pose proof (io_frame _ _ _ H) as Hf. destruct e; try exact Hf; exfalso; [eapply N1|eapply N2]; reflexivity. }
+    destruct Hfr as [Hr Hw]. rewrite Hr. rewrite Hw in Hw'.
+    assert (Hact : forall k x', find_task k (tasks s') = Some x' -> io_active x' = true ->
+                    exists x, find_task k (tasks s) = Some x /\ io_active x = true).
+    { intros k x' Hx' Ha.
+      destruct (task_origin _ _ _ _ _ H Hx') as [(x & Hx & Hts)|(_ & t & g & a & fin & deps & kind & _ & ->)].
+      - exists x. split; [exact Hx|].
+        destruct (io_active_change _ _ _ _ Hts) as [E|[(E & _)|(E & _)]]; [congruence| |]; exfalso;
+          [eapply N1|eapply N2]; exact E.
+      - rewrite io_active_fresh in Ha. discriminate. }
+    destruct (I Hw') as [[R0 Hno]|[R1 (k0 & Hk0)]].
+    - left. split; [exact R0|]. intros k x' Hx'. destruct (io_active x') eqn:Ea; [|reflexivity].
+      destruct (Hact k x' Hx' Ea) as (x & Hx & Hax). rewrite (Hno k x Hx) in Hax. discriminate.
+    - right. split; [exact R1|]. exists k0. intros k x' Hx' Ea.
+      destruct (Hact k x' Hx' Ea) as (x & Hx & Hax). eauto. }
+  destruct e; try (apply Hother; discriminate).
+  - (* ETaskStart *)
+    destruct (find_task k (tasks s)) as [x|] eqn:Ex; [|cbn [step] in H; rewrite Ex in H; discriminate].
+    destruct (start_io _ _ _ _ H Ex) as (Hw & Hio & Hnio & Hpost). rewrite Hw in Hw'.
+    assert (Hact : forall k1 x', find_task k1 (tasks s') = Some x' -> io_active x' = true -> k1 <> k ->
+                    exists x1, find_task k1 (tasks s) = Some x1 /\ io_active x1 = true).
+    { intros k1 x' Hx' Ha Hne.
+      destruct (task_origin _ _ _ _ _ H Hx') as [(x1 & Hx1 & Hts)|(_ & t & g & a & fin & deps & kind & E & _)]; [|discriminate].
+      exists x1. split; [exact Hx1|].
+      destruct (io_active_change _ _ _ _ Hts) as [E|[(E & _)|(E & _)]]; [congruence| |discriminate].
+      injection E as E. rewrite (find_task_some_id _ _ _ Hx1) in E. congruence. }
+    destruct (stage_eqb (k_stage x) SIO) eqn:Es.
+    + apply stage_eqb_eq in Es. destruct (Hio Es) as [Hlt Hr].
+      destruct (I Hw') as [[R0 Hno]|[R1 _]]; [|lia].
+      right. split; [lia|]. exists k. intros k1 x' Hx' Ha.
+      destruct (Z.eq_dec k1 k) as [E|Hne]; [exact E|exfalso].
+      destruct (Hact k1 x' Hx' Ha Hne) as (x1 & Hx1 & Ha1). rewrite (Hno k1 x1 Hx1) in Ha1. discriminate.
+    + assert (Hns : k_stage x <> SIO) by (intros E; rewrite E in Es; discriminate).
+      rewrite (Hnio Hns).
+      assert (Hk : forall x', find_task k (tasks s') = Some x' -> io_active x' = false).
+      { intros x' Hx'. rewrite Hpost in Hx'. injection Hx' as <-. unfold io_active. cbn. now rewrite Es. }
+      destruct (I Hw') as [[R0 Hno]|[R1 (k0 & Hk0)]].
+      * left. split; [exact R0|]. intros k1 x' Hx'. destruct (io_active x') eqn:Ea; [|reflexivity].
+        destruct (Z.eq_dec k1 k) as [->|Hne]; [rewrite (Hk x' Hx') in Ea; discriminate|].
+        destruct (Hact k1 x' Hx' Ea Hne) as (x1 & Hx1 & Ha1). rewrite (Hno k1 x1 Hx1) in Ha1. discriminate.
+      * right. split; [exact R1|]. exists k0. intros k1 x' Hx' Ea.
+        destruct (Z.eq_dec k1 k) as [->|Hne]; [rewrite (Hk x' Hx') in Ea; discriminate|].
+        destruct (Hact k1 x' Hx' Ea Hne) as (x1 & Hx1 & Ha1). eauto.
+  - (* ETaskEnd *)
+    destruct (find_task k (tasks s)) as [x|] eqn:Ex;
+      [|cbn [step] in H; destruct (busy s k); [discriminate|]; rewrite Ex in H; discriminate].
+    destruct (end_io _ _ _ _ H Ex) as (Hw & Hio & Hnio & Hpost & Hpm & Hne0). rewrite Hw in Hw'.
+    assert (Hk : forall x', find_task k (tasks s') = Some x' -> io_active x' = false).
+    { intros x' Hx'. rewrite Hpost in Hx'. injection Hx' as <-. unfold io_active. cbn.
+      now rewrite !andb_false_r. }
+    assert (Hact : forall k1 x', find_task k1 (tasks s') = Some x' -> io_active x' = true ->
+                    k1 <> k /\ exists x1, find_task k1 (tasks s) = Some x1 /\ io_active x1 = true).
+    { intros k1 x' Hx' Ha.
+      assert (Hne : k1 <> k) by (intros ->; rewrite (Hk x' Hx') in Ha; discriminate).
+      split; [exact Hne|].
+      destruct (task_origin _ _ _ _ _ H Hx') as [(x1 & Hx1 & Hts)|(_ & t & g & a & fin & deps & kind & E & _)]; [|discriminate].
+      exists x1. split; [exact Hx1|].
+      destruct (io_active_change _ _ _ _ Hts) as [E|[(E & _)|(E & _)]]; [congruence|discriminate|].
+      injection E as E. rewrite (find_task_some_id _ _ _ Hx1) in E. congruence. }
+    destruct (stage_eqb (k_stage x) SIO) eqn:Es.
+    + apply stage_eqb_eq in Es. rewrite (Hio Es).
+      assert (Hax : io_active x = true).
+      { unfold io_active. rewrite Es. cbn. destruct (k_st x); try discriminate; try reflexivity. congruence. }
+      destruct (I Hw') as [[R0 Hno]|[R1 (k0 & Hk0)]]; [rewrite (Hno k x Ex) in Hax; discriminate|].
+      left. split; [lia|]. intros k1 x' Hx'. destruct (io_active x') eqn:Ea; [|reflexivity].
+      destruct (Hact k1 x' Hx' Ea) as (Hne & x1 & Hx1 & Ha1).
+      pose proof (Hk0 k x Ex Hax). pose proof (Hk0 k1 x1 Hx1 Ha1). congruence.
+    + assert (Hns : k_stage x <> SIO) by (intros E; rewrite E in Es; discriminate).
+      rewrite (Hnio Hns).
+      destruct (I Hw') as [[R0 Hno]|[R1 (k0 & Hk0)]].
+      * left. split; [exact R0|]. intros k1 x' Hx'. destruct (io_active x') eqn:Ea; [|reflexivity].
+        destruct (Hact k1 x' Hx' Ea) as (Hne & x1 & Hx1 & Ha1). rewrite (Hno k1 x1 Hx1) in Ha1. discriminate.
+      * right. split; [exact R1|]. exists k0. intros k1 x' Hx' Ea.
+        destruct (Hact k1 x' Hx' Ea) as (Hne & x1 & Hx1 & Ha1). eauto.
+Qed.
+
+(* ================================================================== *)
+(** * T4: quiescence at announce *)
+
+(** the only task an event can move *)
+Definition ev_task (e : event) : option Z :=
+  match e with
+  | EAcquire _ k _ | EEnqueue _ k | EAssoc _ k | ETaskStart k | EDepsDone k | EDoneCheck k _
+  | EMainBegin k | EMainEnd k _ | EStatus k _ _ | EWaitAll k | ETaskEnd k | ERelease k | EDissoc k => Some k
+  | ESetException a _ _ _ | EAnnBegin a _ | EAnnEnd a _ => Some a
+  | _ => None
+  end.
+
+Lemma tstepE_only s e x x' : tstepE s e x x' -> x' = x \/ ev_task e = Some (k_id x).
+Proof. intros H. destruct H; cbn; try (left; reflexivity); right; try congruence. Show. Qed.
+
+(** ** the plan facts about the final task, as an invariant *)
+Definition final_inv (s : state) : Prop :=
+  forall kf f k x, find_task kf (tasks s) = Some f -> find_task k (tasks s) = Some x ->
+    k_final f = true -> k_t x = k_t f -> k <> kf ->
+    k_final x = false /\
+    (k_kind x = KSubmission \/ In k (k_deps f) \/ past_main (k_st x) = true \/
+     (k_stage x = SIO /\ k_stage f = SIO)).
+
+Lemma final_inv_step s e s' : final_inv s -> step s e = Some s' -> final_inv s'.
+Proof.
+  intros I H kf f' k x' Hf' Hx' Hfin Ht Hne.
+  destruct (task_origin _ _ _ _ _ H Hf') as [(f & Hf & Htf)|(Hnf & t1 & g1 & a1 & fin1 & d1 & kd1 & E1 & ->)];
+  destruct (task_origin _ _ _ _ _ H Hx') as [(x & Hx & Htx)|(Hnx & t2 & g2 & a2 & fin2 & d2 & kd2 & E2 & ->)].
+  - statics Htf. statics Htx. rewrite Sfin in Hfin. rewrite St, St0 in Ht.
+    destruct (I kf f k x Hf Hx Hfin Ht Hne) as [Hnf Hor]. rewrite Sfin0, Skind0, Sdeps, Sstg, Sstg0.
+    split; [exact Hnf|]. destruct Hor as [Ho|[Ho|[Ho|Ho]]]; auto.
+    right; right; left. eapply past_main_monotone_step; eauto.
+  - (* a task submitted although a final task exists: impossible *)
+    statics Htf. rewrite Sfin in Hfin. subst e. cbn [k_t fresh_task] in Ht. rewrite St in Ht.
+    destruct (submit_inv _ _ _ _ _ _ _ _ _ H) as [_ _ _ _ _ _ _ Hnofin _ _ _].
+    rewrite (Hnofin kf f Hf (eq_sym Ht)) in Hfin. discriminate.
+  - (* the final task is being submitted *)
+    statics Htx. subst e. cbn [k_final k_t k_deps k_stage fresh_task] in *. subst fin1. rewrite St in Ht.
+    destruct (submit_inv _ _ _ _ _ _ _ _ _ H) as [_ _ _ _ _ _ _ Hnofin Hfok _ _].
+    rewrite Sfin, Skind, Sstg. split; [eapply Hnofin; eauto|].
+    destruct (Hfok eq_refl k x Hx Ht) as [Ho|[Ho|[Ho|Ho]]]; auto.
+    + right; left. now rewrite <- (find_task_some_id _ _ _ Hx).
+    + right; right; left. eapply past_main_monotone_step; eauto.
+  - congruence.
+Qed.
+
+(** ** dependencies have ended once a task is past [EDepsDone] *)
+Definition after_deps (v : tst) : bool :=
+  match v with TSubmitting | TQueued | TStarted => false | _ => true end.
+
+Definition deps_inv (s : state) : Prop :=
+  forall k x d, find_task k (tasks s) = Some x -> after_deps (k_st x) = true -> In d (k_deps x) ->
+    exists y, find_task d (tasks s) = Some y /\ k_st y = TEnded.
+
+Lemma deps_inv_step s e s' : deps_inv s -> step s e = Some s' -> deps_inv s'.
+Proof.
+  intros I H k x' d Hx' Ha Hd.
+  destruct (task_origin _ _ _ _ _ H Hx') as [(x & Hx & Hts)|(_ & t & g & a & fin & deps & kind & _ & ->)].
+  2:{ cbn in Ha. destruct (stage_eqb g SInline); discriminate. }
+  statics Hts. rewrite Sdeps in Hd.
+  assert (Hy : exists y, find_task d (tasks s) = Some y /\ k_st y = TEnded).
+  { destruct (after_deps (k_st x)) eqn:Ea; [eapply I; eauto|].
+    destruct Hts; cbn [k_st with_st with_flags with_phase with_permit with_assoc with_released] in *;
+      try congruence;
+      try (match goal with Hq : k_st _ = _ |- _ => rewrite Hq in Ea; discriminate end);
+      try (destruct (k_final x); match goal with Hq : k_st _ = _ |- _ => rewrite Hq in Ea; discriminate end).
+    (* deps *)
+    match goal with Hf : forallb _ _ = true |- _ => rewrite forallb_forall in Hf; specialize (Hf d Hd) end.
+    unfold dep_done, task_in in *. destruct (find_task d (tasks s)) as [y|]; [|discriminate].
+    exists y. split; [reflexivity|]. now apply tst_eqb_true. }
+  destruct Hy as (y & Hy & Hye).
+  destruct (task_persists _ _ _ _ _ H Hy) as (y' & Hy' & Hyts).
+  exists y'. split; [exact Hy'|]. eapply ended_is_absorbing_step; eauto.
+Qed.
+
+(** ** calm: no task other than the submission task is about to run or running its main *)
+Definition hot (v : tst) : bool := match v with TReady | TMain => true | _ => false end.
+
+Definition calm (s : state) (t : Z) : Prop :=
+  forall k x, find_task k (tasks s) = Some x -> k_t x = t -> k_kind x <> KSubmission -> hot (k_st x) = false.
+
+Lemma hot_step s e x x' :
+  tstepE s e x x' -> hot (k_st x') = true ->
+  hot (k_st x) = true \/ (e = EDoneCheck (k_id x) false /\ coord_done s (k_t x) = false).
+Proof.
+  intros H Hh.
+  destruct H; cbn [k_st with_st with_flags with_phase with_permit with_assoc with_released] in *;
+    auto; try discriminate;
+    try (match goal with Hq : k_st _ = _ |- _ => left; rewrite Hq; reflexivity end).
+  right. subst. auto.
+Qed.
+
+Lemma calm_step s e s' t :
+  calm s t -> step s e = Some s' -> ((exists k, e = EDoneCheck k false) -> coord_done s t = true) ->
+  calm s' t.
+Proof.
+  intros C H Hd k x' Hx' Ht Hk.
+  destruct (task_origin _ _ _ _ _ H Hx') as [(x & Hx & Hts)|(_ & t1 & g & a & fin & deps & kind & _ & ->)].
+  2:{ cbn. destruct (stage_eqb g SInline); reflexivity. }
+  statics Hts. rewrite St in Ht. rewrite Skind in Hk.
+  destruct (hot (k_st x')) eqn:Eh; [|reflexivity].
+  destruct (hot_step _ _ _ _ Hts Eh) as [Hh|(-> & Hnd)].
+  - rewrite (C k x Hx Ht Hk) in Hh. discriminate.
+  - rewrite Ht in Hnd. rewrite Hd in Hnd; [discriminate|eauto].
+Qed.
